@@ -827,7 +827,7 @@ def rule_incdec(chk, prog, tier):
                  oracle='C11 6.5.2.4p1, 6.5.3.1p1')
     fn = prog.require_func('mkincdecexpr', 'expr.c')
     QC = ev(prog, 'QUALCONST')
-    OPS = ['int', 'char', 'double', 'bool', 'ptr_int', 'ptr_struct', 'ptr_void', 'ptr_incomplete', 'ptr_func', 'struct', 'enum']
+    OPS = ['int', 'char', 'double', 'bool', 'ptr_int', 'ptr_struct', 'ptr_void', 'ptr_incomplete', 'ptr_func', 'struct', 'enum', 'ptr_vla']
     for o in OPS:
         for lvalue in (1, 0):
             for qual in (0, QC):
@@ -839,6 +839,9 @@ def rule_incdec(chk, prog, tier):
                             ft = it.call('mktype', [ev(prog, 'TYPEFUNC'), 0]); ft.obj.f.update({('base',): w.t('int'), ('qual',): 0, ('size',): 0, ('align',): 0, ('incomplete',): 0})
                             T = {'int': w.t('int'), 'char': w.t('char'), 'double': w.t('double'), 'bool': w.t('bool'), 'ptr_int': w.mkptr(w.t('int')), 'ptr_struct': w.mkptr(st_), 'ptr_void': w.mkptr(w.t('void')),
                                  'ptr_incomplete': w.mkptr(inc), 'ptr_func': w.mkptr(ft), 'struct': st_, 'enum': w.mkenum(w.t('uint'))}
+                            # pointer to int[n]
+                            vla = it.call('mkarraytype', [w.t('int'), 0, 0]); vla.obj.f[('incomplete',)] = 0; vla.obj.f[('prop',)] = (it.load(vla.obj, ('prop',)) or 0) | ev(prog, 'PROPVM')
+                            T['ptr_vla'] = w.mkptr(vla)
                             x = w.temp(T[o], 'x'); x.obj.f[('lvalue',)] = lvalue; x.obj.f[('qual',)] = qual
                             it.models.update({'xmalloc': lambda i2, a, e: Ptr(Obj('heap@%s' % e.get('line'), 'heap'), ()),
                                               'error': lambda i2, a, e: (_ for _ in ()).throw(Terminal('error', cmodel.fmt_of(i2, a, 1))),
@@ -848,7 +851,7 @@ def rule_incdec(chk, prog, tier):
                         runs = explore(prog, runner, {}, max_runs=4, on_unsupported='keep')
                         if len(runs) != 1 or runs[0].outcome == 'unsupported':
                             raise AnalysisBroken('mkincdecexpr %s: %s' % (o, runs[0].detail if runs else 'no run'))
-                        ok = lvalue and not qual and o in ('int', 'char', 'double', 'bool', 'ptr_int', 'ptr_struct', 'enum')
+                        ok = lvalue and not qual and o in ('int', 'char', 'double', 'bool', 'ptr_int', 'ptr_struct', 'enum', 'ptr_vla')      # a pointer to int[n] is a pointer to a complete object type; its step is decided in C01.j
                         run = runs[0]
                         key = 'incdec:%s%s%s,%s%s' % ('' if post else op[1:].lower() + ' ', o, ' ' + op[1:].lower() if post else '', 'lvalue' if lvalue else 'rvalue', ',const' if qual else '')
                         if ok: r.instance(run.outcome == 'return' and run.value is True, key, 'expr.c:%s' % fn.get('line'), 'valid: expected an increment node of the operand\'s type; got %s %s' % (run.outcome, run.value if run.outcome == 'return' else run.detail))
@@ -1140,5 +1143,7 @@ def run(chk, tier):
     chk.guard('C10.q', lambda: rule_structdecl_syntax(chk, prog, tier))
     from props import c08
     chk.guard('C08.e', lambda: c08.rule_valist(chk, prog, tier))        # va_arg of a structure or union (unsupported) is diagnosed
+    from props import c05
+    chk.guard('C05.c2', lambda: c05.rule_pointer_scale(chk, prog, tier))      # arithmetic on pointers to variable-length arrays (incomplete feature) is diagnosed, not scaled by 0
     from props import c09
     chk.guard('C09.f', lambda: c09.rule_redecl_types(chk, prog, tier))
